@@ -799,7 +799,7 @@ class Engine:
             c = as_bool(self.eval(s.test, env))
             self.oblige('hazard', 'assert {}'.format(ast.unparse(s.test)), c, s.lineno)
             return
-        if isinstance(s, ast.Pass):
+        if isinstance(s, (ast.Pass, ast.Import, ast.ImportFrom)):
             return
         if isinstance(s, ast.For):
             return self.exec_for(s, env)
@@ -991,6 +991,8 @@ class Engine:
         if isinstance(v, (VSet2, VFun2)):
             v.arr = self.fresh(name, v.arr.sort())
             return v
+        if isinstance(v, VOpaque):
+            return VOpaque(v.what)
         if v is None or isinstance(v, VOpt):
             return VOpt(self.fresh(name + '_isnone', z3.BoolSort()), self.fresh(name))
         if isinstance(v, VStr):
@@ -1667,6 +1669,16 @@ class Engine:
         raise Unsupported('slice (line {})'.format(node.lineno))
 
     def ev_ListComp(self, e, env):
+        if len(e.generators) == 2 and not e.generators[0].ifs and not e.generators[1].ifs and isinstance(e.elt, ast.Tuple) \
+                and len(e.elt.elts) == 2 and all(isinstance(g.target, ast.Name) for g in e.generators) \
+                and [x.id if isinstance(x, ast.Name) else None for x in e.elt.elts] == [g.target.id for g in e.generators]:
+            A, Bv = self.eval_iter(e.generators[0].iter, env), self.eval_iter(e.generators[1].iter, env)
+            if isinstance(A, VRange) and isinstance(Bv, VRange) and A.step == 1 and Bv.step == 1:
+                # all pairs, first component slowest:  t -> (loA + t div nB, loB + t mod nB)
+                nA = zmax(toz(A.hi) - toz(A.lo), z3.IntVal(0))
+                nB = zmax(toz(Bv.hi) - toz(Bv.lo), z3.IntVal(0))
+                t = z3.Int('pairs!t')
+                return VPairs(z3.simplify(nA * nB), z3.Lambda([t], toz(A.lo) + py_floordiv(t, nB)), z3.Lambda([t], toz(Bv.lo) + py_mod(t, nB)))
         if len(e.generators) != 1 or e.generators[0].ifs:
             raise Unsupported('comprehension shape')
         g = e.generators[0]
@@ -1787,6 +1799,13 @@ class Engine:
         return VTuple(out, 'list')
 
     ev_GeneratorExp = ev_ListComp
+
+    def ev_Dict(self, e, env):
+        if e.keys:
+            raise Unsupported('non-empty dict literal')
+        I = z3.IntSort()
+        return VArr2(z3.IntVal(0), z3.K(I, z3.IntVal(0)), self.fresh('rows', z3.ArraySort(I, z3.ArraySort(I, I))),
+                     present=z3.K(I, z3.BoolVal(False)))
 
     def ev_Lambda(self, e, env):
         return VClosure(e, env, self.modinfo)
@@ -2062,6 +2081,10 @@ class Engine:
         return False
 
     def construct(self, rel, cname, args, kw, node):
+        # the verified function may declare which class MODEL stands for a real class it instantiates
+        cname = self.frames[0]['contract'].get('calls_model', {}).get(cname, cname)
+        if cname in self.classmodels:
+            rel = self.classmodels[cname].get('file', rel)
         key = (rel, cname + '.__init__')
         c = self.contracts.get(key)
         if c is None:
@@ -2535,7 +2558,17 @@ def b_next(eng, node, a):
     raise Unsupported('next of symbolic iterator')
 
 
-BUILTINS = {'all': b_allany_raw, 'any': b_allany_raw, 'sorted': lambda eng, node, seq, key=None: lib_sorted(eng, node, seq, key), 'len': b_len, 'abs': b_abs, 'min': b_minmax('min'), 'max': b_minmax('max'), 'range': b_range,
+def b_set(eng, node, v=None):
+    if v is not None:
+        raise Unsupported('set(iterable)')
+    return VSet2(z3.K(z3.IntSort(), z3.K(z3.IntSort(), z3.BoolVal(False))) if False else _empty_pairset())
+
+
+def _empty_pairset():
+    return z3.Lambda([z3.Int('ps!x'), z3.Int('ps!y')], z3.BoolVal(False))
+
+
+BUILTINS = {'set': b_set, 'all': b_allany_raw, 'any': b_allany_raw, 'sorted': lambda eng, node, seq, key=None: lib_sorted(eng, node, seq, key), 'len': b_len, 'abs': b_abs, 'min': b_minmax('min'), 'max': b_minmax('max'), 'range': b_range,
             'list': b_list, 'tuple': b_list, 'isinstance': b_isinstance, 'int': b_int, 'zip': b_zip,
             'enumerate': b_enumerate, 'sum': b_sum_raw, 'next': b_next, 'iter': lambda eng, node, v: v}
 
@@ -2762,6 +2795,34 @@ def lm_readlines(eng, node, o):
     return VStrs(eng.fresh('lines', specs.SSeq))
 
 
+def lib_random_randint(eng, node, a, b):
+    c = eng.fresh('randint')
+    eng.pc.append(z3.And(toz(a) <= c, c <= toz(b)))       # demonic: any value in [a, b]
+    if getattr(eng, 'demonic', None) is not None:
+        eng.demonic.append(c)
+    return c
+
+
+def lib_random_sample(eng, node, pop, k):
+    """demonic random.sample(population, k): k elements at pairwise distinct positions; ValueError if k > len"""
+    if not isinstance(pop, VPairs):
+        raise Unsupported('random.sample on {!r}'.format(pop))
+    n, kk = toz(pop.length), toz(k)
+    if eng.branch(z3.Or(kk > n, kk < 0)):
+        eng.oblige('hazard', 'random.sample: 0 <= k <= len(population)', False, node.lineno)
+        raise PyExc('ValueError', node.lineno)
+    P = eng.fresh('sample_pos', z3.ArraySort(z3.IntSort(), z3.IntSort()))
+    i, j = z3.Int('i!sm'), z3.Int('j!sm')
+    eng.pc.append(z3.ForAll([i], z3.Implies(z3.And(0 <= i, i < kk), z3.And(0 <= z3.Select(P, i), z3.Select(P, i) < n))))
+    eng.pc.append(z3.ForAll([i, j], z3.Implies(z3.And(0 <= i, i < j, j < kk), z3.Select(P, i) != z3.Select(P, j))))
+    t = z3.Int('smp!t')
+    r = VPairs(kk, z3.Lambda([t], sel(pop.first, z3.Select(P, t))), z3.Lambda([t], sel(pop.second, z3.Select(P, t))))
+    return r
+
+
+LIBRARY['random.randint'] = lib_random_randint
+LIBRARY['random.sample'] = lib_random_sample
+LIBRARY['random.seed'] = lambda eng, node, *a: None
 LIBRARY['random.choice'] = lib_random_choice
 LIBRARY['random.shuffle'] = lib_random_shuffle
 LIBRARY['collections.OrderedDict'] = lambda eng, node, *a: VOpaque('OrderedDict')
